@@ -13,13 +13,13 @@ P = {
         "name": "translate", "pkg": "./internal/zzverif/c12", "test": "TestVerifC12",
         "overlay": {
             "internal/zzverif/c12/c12_test.go": "c12/c12_test.go",
-            "internal/zzverif/stacks/stacks.go": "stacks/stacks.go",
+            "internal/rules/zz_verif_c12_export.go": "c12/rules_export.go",
             "internal/handler/decision/zz_verif_export.go": "export/decision_export.go",
             "internal/handler/proxy/zz_verif_export.go": "export/proxy_export.go",
             "internal/handler/envoyextauth/grpcv3/zz_verif_export.go": "export/grpcv3_export.go",
         },
-        "eval_module": "Run.Eval_C12", "check_term": "check false",   # "check true" once fixes/C12-F1.diff is applied
-        "n_quick": 1500, "n_thorough": 40000, "findings": {1: "C12-F1", 2: "C12-F2"}, "shard": 200,
+        "eval_module": "Run.Eval_C12", "check_term": "check (mkfx false false)",   # mkfx <fixes/C12-F1.diff applied> <fixes/C12-F4.diff applied>
+        "n_quick": 1500, "n_thorough": 40000, "findings": {1: "C12-F1", 2: "C12-F2", 4: "C12-F4"}, "shard": 200,
     }],
     "rule": "respond configuration (verbose, six override codes incl. 0, 1xx/2xx, negative and >999) x Accept header (absent, "
             "wildcards, q-values, malformed) x error tree of depth <= 6, fan-out <= 4 built from real values (8 heimdall sentinels, "
